@@ -18,7 +18,19 @@ type Engine struct {
 // Evaluate executes all of the expressions and returns the final result.
 //
 // Evaluate expects that there is at least one document provided.
-func (e *Engine) Evaluate(documents []*gedcom.Document) (interface{}, error) {
+func (e *Engine) Evaluate(documents []*gedcom.Document) (result interface{}, err error) {
+	// The expressions rely on reflection, which panics when a query is applied
+	// to a value it does not fit. That is an error in the query.
+	defer func() {
+		if r := recover(); r != nil {
+			result, err = nil, fmt.Errorf("cannot evaluate: %v", r)
+		}
+	}()
+
+	if len(documents) == 0 {
+		return nil, fmt.Errorf("cannot evaluate: no documents")
+	}
+
 	// Before we begin we will setup the Document variables. Each document, in
 	// order will be given Document1, Document2, ...
 	for i, document := range documents {
